@@ -2,9 +2,9 @@ package zv
 
 import (
 	"fmt"
-	"os"
 	"go/token"
 	"go/types"
+	"os"
 	"sort"
 	"strings"
 
@@ -581,7 +581,6 @@ func mayCarry(e ssa.Value, src *ssa.Call, depth int) bool {
 	}
 	return false
 }
-
 
 // errSources follows an error value along the current path (φ choices, helper results, multierr.Append/Combine
 // arguments) back to the calls that produced it, classified by classify.
